@@ -102,11 +102,29 @@ struct Script {
   waker: Option<Waker>,
 }
 
-thread_local! {
-  static POOLS: RefCell<Vec<TaskSlot>> = RefCell::new(vec![]);
-  static FUTS: RefCell<Vec<Script>> = RefCell::new(vec![]);
-  static STREAMS: RefCell<Vec<Script>> = RefCell::new(vec![]);
+/// Process-wide table with the access pattern of a thread-local `RefCell`. The executor state is shared by all
+/// threads of a behaviour: in the multi-threaded harness a task scheduled by one thread may be polled by another
+/// one (a cross-thread executor). `LocalPool` is `!Send` only because of its `Rc` plumbing; the pools are touched by
+/// one thread at a time (under this mutex, or taken out of the table while being polled), and in the multi-threaded
+/// harness every future inside them is `Send` (thread-safe form).
+pub struct Shared<T>(Mutex<Option<SendCell<T>>>, fn() -> T);
+pub struct SendCell<T>(RefCell<T>);
+unsafe impl<T> Send for SendCell<T> {}
+impl<T> Shared<T> {
+  pub fn with<R>(&self, f: impl FnOnce(&RefCell<T>) -> R) -> R {
+    let mut g = match self.0.lock() {
+      Ok(g) => g,
+      Err(p) => p.into_inner(),
+    };
+    if g.is_none() {
+      *g = Some(SendCell(RefCell::new((self.1)())));
+    }
+    f(&g.as_ref().unwrap().0)
+  }
 }
+static POOLS: Shared<Vec<TaskSlot>> = Shared(Mutex::new(None), Vec::new);
+static FUTS: Shared<Vec<Script>> = Shared(Mutex::new(None), Vec::new);
+static STREAMS: Shared<Vec<Script>> = Shared(Mutex::new(None), Vec::new);
 
 /// forget everything of the previous behaviour
 pub fn reset() {
@@ -208,10 +226,8 @@ pub fn run_all() {
   }
 }
 
-thread_local! {
-  /// bumped whenever one of our leaf futures makes progress
-  static ACTIVITY: RefCell<u64> = RefCell::new(0);
-}
+/// bumped whenever one of our leaf futures makes progress
+static ACTIVITY: Shared<u64> = Shared(Mutex::new(None), || 0);
 fn activity() {
   ACTIVITY.with(|a| *a.borrow_mut() += 1);
 }
